@@ -409,7 +409,9 @@ func breakVLA(r *Rand, v *rtp.VLA, how int) string {
 		return "no-layers"
 	default:
 		a, b := r.Intn(9), r.Intn(9)
-		return breakVLA(r, v, a) + "+" + breakVLA(r, v, b)
+		breakVLA(r, v, a)
+		breakVLA(r, v, b)
+		return "two-defects"
 	}
 }
 
